@@ -246,6 +246,17 @@ func (s *PScn) materialise(dir string) error {
 				os.Symlink("does-not-exist", filepath.Join(pd, e)) // makes dirhash fail for this directory
 				continue
 			}
+			if e == "linked.go" {
+				// a source file that is a symbolic link to a file kept outside the package directory: part of the package and of
+				// its directory hash like any other file
+				shared := filepath.Join(dir, "_shared")
+				os.MkdirAll(shared, 0o755)
+				target := filepath.Join(shared, fmt.Sprintf("%s_v%d.go", p.Dir, p.Edit))
+				os.WriteFile(target, []byte(fmt.Sprintf("package %s\n\nconst linkedEdit = %d\n", p.Dir, p.Edit)), 0o644)
+				os.Remove(filepath.Join(pd, e))
+				os.Symlink(filepath.Join("..", "_shared", filepath.Base(target)), filepath.Join(pd, e))
+				continue
+			}
 			content := fmt.Sprintf("package %s\n", p.Dir)
 			if e == "zdoc.go" {
 				_, inDoc := p.docSplit()
@@ -513,6 +524,28 @@ func (g *genRecAN) New(c gengo.Context) gengo.Generator  { return &genRecAN{} }
 func (g *genRecxAN) New(c gengo.Context) gengo.Generator { return &genRecxAN{} }
 func (g *genRec2AN) New(c gengo.Context) gengo.Generator { return &genRec2AN{} }
 
+// a fourth name, ending in the letters of the output files' extension ("proto" … ".go")
+type genProto struct{ recState }
+
+func (g *genProto) Name() string { return "proto" }
+func (g *genProto) GenerateType(c gengo.Context, n *types.Named) error {
+	g.name = "proto"
+	return g.do(c, n.Obj().Pkg().Path(), recTypeName(n), false)
+}
+
+type genProtoA struct{ genProto }
+
+func (g *genProtoA) GenerateAliasType(c gengo.Context, n *types.Alias) error {
+	g.name = "proto"
+	return g.do(c, n.Obj().Pkg().Path(), n.Obj().Name(), true)
+}
+
+type genProtoN struct{ genProto }
+type genProtoAN struct{ genProtoA }
+
+func (g *genProtoN) New(c gengo.Context) gengo.Generator  { return &genProtoN{} }
+func (g *genProtoAN) New(c gengo.Context) gengo.Generator { return &genProtoAN{} }
+
 // mkGenerator: the prototype handed to Execute.  It carries allocated state (as a generator built by a constructor
 // does); per-package instances must not inherit it.
 func mkGenerator(g PGen) gengo.Generator {
@@ -525,6 +558,14 @@ func (g *recState) state() *recState { return g }
 
 func mkGenerator0(g PGen) gengo.Generator {
 	switch fmt.Sprintf("%s/%v/%v", g.Name, g.Alias, g.CustomNew) {
+	case "proto/false/false":
+		return &genProto{}
+	case "proto/true/false":
+		return &genProtoA{}
+	case "proto/false/true":
+		return &genProtoN{}
+	case "proto/true/true":
+		return &genProtoAN{}
 	case "rec/false/false":
 		return &genRec{}
 	case "rec/true/false":
